@@ -5,7 +5,7 @@ demonstration passes on the unchanged tree, patch applies, tree builds, demonstr
 the change, existing tests of the touched packages pass."""
 import json, os, glob, shutil, re, sys
 
-ROOTS = ["/tmp/seed_adapted", "/tmp/seed2", "/tmp/seed"]
+ROOTS = ["/tmp/seed_adapted", "/tmp/seed2", "/tmp/seed3", "/tmp/seed"]
 OUT = "/verif/seeded"
 W = "/verif/work/seeds"
 
@@ -24,7 +24,7 @@ def main():
             c = json.load(open(cf))
             ok = (c.get("demo_unchanged_exit") == "0" and c.get("apply_exit") == "0" and c.get("build_exit") == "0"
                   and c.get("demo_changed_exit") not in ("0", None) and c.get("existing_tests_exit") == "0")
-            name = f"{pid}-{k}" + ("" if root == "/tmp/seed2" else ("-adapted" if root == "/tmp/seed_adapted" else "-base"))
+            name = f"{pid}-{k}" + {"/tmp/seed2": "", "/tmp/seed3": "-r2", "/tmp/seed_adapted": "-adapted", "/tmp/seed": "-base"}[root]
             if root == "/tmp/seed" and (pid, k) in seen:
                 continue  # an adapted version exists
             if root == "/tmp/seed_adapted":
@@ -51,6 +51,7 @@ def main():
                     shutil.copy(f"{d}/{f}", f"{dst}/{f}" + (".txt" if f.endswith("_test.go") else ""))
             m = dict(meta)
             m["origin"] = {"/tmp/seed": "sub-agent, against the pinned commit 8ef576c", "/tmp/seed2": "sub-agent, against /repo HEAD at the time (contract files removed from its worktree)",
+                           "/tmp/seed3": "sub-agent (second round), against /repo HEAD at the time (contract files removed from its worktree)",
                            "/tmp/seed_adapted": "sub-agent's change re-applied by hand to the repaired tree"}[root]
             m["confirmation"] = c
             m["applies_to_repo_head"] = applies
@@ -71,7 +72,13 @@ def main():
             f.write(f"| {r['name']} | {'yes' if r['confirmed'] else 'NO'} | {'yes' if r['applies_to_repo'] else 'no'} | {cb} | {r['summary'][:300].replace('|','/')}{note} |\n")
         kept = [r for r in rows if r["confirmed"]]
         caught = [r for r in kept if r["caught_by"]]
-        f.write(f"\n{len(kept)} confirmed changes kept, {len(caught)} caught by at least one check, {len(kept)-len(caught)} missed or not applicable to the current tree.\n")
+        masked = [r for r in kept if not r["caught_by"] and (r.get("head") or "").startswith("masked")]
+        noapply = [r for r in kept if not r["caught_by"] and not r["applies_to_repo"]]
+        missed = [r for r in kept if not r["caught_by"] and r not in masked and r not in noapply]
+        f.write(f"\n{len(kept)} confirmed changes kept: {len(caught)} caught by at least one check, {len(missed)} missed, "
+                f"{len(masked)} no longer a violation on the repaired tree (their demonstration passes there), {len(noapply)} do not apply to the current tree.\n")
+        if missed:
+            f.write("\nMissed: " + ", ".join(r["name"] for r in missed) + " (discussed in DESIGN.md section 10.5).\n")
     print(f"{len(rows)} seeds seen; see {OUT}/RESULTS.md")
 
 if __name__ == "__main__":
